@@ -7,7 +7,7 @@
 (*   FoldEq        the queue the wallet-level operations leave (replace_queue_entries looks only at  *)
 (*                 the stored entries near the insertions) is the dominance rule folded over ALL     *)
 (*                 insertions generated so far, in order (the property's reading), cut by rewinds    *)
-(*   LayerB        replace_queue_entries transcribed literally -- the touched rows, then the         *)
+(*   LayerB        (okB) replace_queue_entries transcribed literally -- the touched rows, then the         *)
 (*                 insertions, through the SpanningTree of SpanningTree.tla, into_vec, rows replaced *)
 (*                 -- yields the same table                                                          *)
 (*   ScanCovers    a scan marks exactly its range Scanned and raises, for EVERY pool with a found    *)
@@ -16,7 +16,8 @@
 (*   ScannedExact, Contiguous, NoneLost, BelowBirthday, SameAsLayerA                                 *)
 EXTENDS WalletQueue
 
-CONSTANTS Birthday, MaxTop, MaxOps, MaxNotes
+CONSTANTS Birthday, MaxTop, MaxOps, MaxNotes,
+          Menu      \* 0: any choice of up to MaxNotes commitments as the wallet's notes; 1: the multi-pool menus below; 2: both
 
 VARIABLES Q,        \* the wallet's queue
           G,        \* ghost: the global fold of every insertion so far
@@ -36,6 +37,13 @@ TrueEnds(P) == { << i, CmOf(P)[(i + 1) * ShardLeaves] >> : i \in { i \in 0..2 : 
 Act == [P \in { "S", "O", "I" } |-> IF P = "I" THEN 1 ELSE 0]
 A0 == 0
 NoEnds == [P \in { "S", "O", "I" } |-> {}]
+
+\* notes in two and three pools: in the open shards, in the completed ones, at the last / first leaf of a shard
+Menus == { { << "S", 2 >>, << "O", 2 >> },                   \* first leaves of shard 1 (blocks 5, 6): downwards to 3 and 6
+           { << "S", 3 >>, << "O", 3 >> },                   \* last leaves of shard 1 (blocks 8, 9)
+           { << "S", 1 >>, << "O", 0 >>, << "I", 0 >> },      \* shard 0 of every pool (blocks 3, 4, 7): upwards to 3, 6, 7
+           { << "S", 2 >>, << "O", 1 >>, << "I", 2 >> },      \* blocks 5, 6, 11
+           { << "S", 4 >>, << "O", 2 >>, << "I", 1 >> } }     \* blocks 10, 6, 7
 
 FoundIn(s, e) == { n \in wn : s <= HeightOf(n) /\ HeightOf(n) < e }
 MaxScanned == IF scanned = {} THEN NoH ELSE SetMax(scanned)
@@ -58,36 +66,49 @@ TableB(Qpre, ins) ==
              ELSE { v[i] : i \in { i \in DOMAIN v : ~Touches(v[i], qs, qe) } } \cup { << nv[i].s, nv[i].e, nv[i].p >> : i \in DOMAIN nv }
 AgreesB(Qpre, ins, Qpost) == TableB(Qpre, ins) = { Vec(Qpost)[i] : i \in DOMAIN Vec(Qpost) }
 
+\* this module's pointwise insertion is ScanQueue's (over 0..HHi-1), on every insertion generated
+RECURSIVE AgreesA(_, _, _, _, _)
+AgreesA(f, l, h, ins, i) ==
+    IF i > Len(ins) THEN TRUE
+    ELSE /\ InsertP(f, l, h, ins[i].s, ins[i].e, ins[i].p, ins[i].f) = SQ!InsertA(f, l, h, ins[i].s, ins[i].e, ins[i].p, ins[i].f)
+         /\ AgreesA(InsertP(f, l, h, ins[i].s, ins[i].e, ins[i].p, ins[i].f), MinOf(l, ins[i].s), MaxOf(h, ins[i].e), ins, i + 1)
+
 Apply(ins, what) ==
     /\ ops < MaxOps /\ ops' = ops + 1
     /\ Q' = Replace(Q, ins)
     /\ G' = IF ins = << >> THEN G ELSE FoldIns(G.f, G.lo, G.hi, ins, 1)
-    /\ okB' = AgreesB(Q, ins, Replace(Q, ins))
+    /\ okB' = (AgreesB(Q, ins, Replace(Q, ins)) /\ AgreesA(G.f, G.lo, G.hi, ins, 1))
     /\ last' = what
 
 Init == /\ Q = Replace(EmptyQueue, IF A0 < Birthday THEN << Ins(A0, Birthday, Ignored, FALSE) >> ELSE << >>)   \* account creation
         /\ G = Q
-        /\ scanned = {} /\ top \in { 6, MaxTop } /\ ends = NoEnds /\ ops = 0
-        /\ wn \in { S \in SUBSET AllCm : Cardinality(S) <= MaxNotes /\ \A n \in S : HeightOf(n) >= Birthday }
+        /\ scanned = {} /\ top = MaxTop /\ ends = NoEnds /\ ops = 0
+        /\ wn \in (IF Menu \in { 0, 2 } THEN { S \in SUBSET AllCm : Cardinality(S) <= MaxNotes /\ \A n \in S : HeightOf(n) >= Birthday } ELSE {})
+                   \cup (IF Menu \in { 1, 2 } THEN Menus ELSE {})
         /\ last = [k |-> "init"] /\ okB = TRUE
 
 NewBlocks == /\ top < MaxTop /\ \E k \in { 1, 3 } : top' = MinOf(MaxTop, top + k)
              /\ ops < MaxOps /\ ops' = ops + 1
              /\ last' = [k |-> "blocks"] /\ UNCHANGED << Q, G, scanned, ends, wn, okB >>
 
-LearnRoot == \E i \in 1..3 : \E r \in TrueEnds(Pools[i]) :
-                /\ r[2] <= top /\ r \notin ends[Pools[i]]
-                /\ ends' = PutRoot(ends, Pools[i], r[1], r[2])
+\* put_*_subtree_roots: the wallet learns the end heights of the shards the chain has completed, for some of the pools
+Known(P) == { r \in TrueEnds(P) : r[2] <= top }
+LearnRoots == \E PS \in (SUBSET { "S", "O", "I" }) \ { {} } :
+                /\ \E P \in PS : Known(P) # ends[P]
+                /\ ends' = [P \in DOMAIN ends |-> IF P \in PS THEN Known(P) ELSE ends[P]]
                 /\ ops < MaxOps /\ ops' = ops + 1
                 /\ last' = [k |-> "root"] /\ UNCHANGED << Q, G, scanned, top, wn, okB >>
+
+\* quick models scan 1 or 3 blocks; MaxNotes >= 2 adds 2 and 5
+ScanLens(s) == IF MaxNotes >= 2 THEN { s + 2, s + 5 } ELSE {}
 
 Tip == \E t \in Birthday..top :
           /\ Apply(IF MaxScanned # NoH /\ t < MaxScanned THEN << >> ELSE TipInsertions(t, MaxScanned, Birthday, MinShardTip(ends)),
                    [k |-> "tip", t |-> t])
           /\ UNCHANGED << scanned, top, ends, wn >>
 
-Scan == \E s \in Birthday..top : \E e \in (s + 1)..(top + 1) :
-          /\ e <= Q.hi                                                      \* the wallet knows the tip before it scans up to it
+Scan == \E s \in Birthday..top : \E e \in { s + 1, s + 3 } \cup ScanLens(s) :
+          /\ e <= top + 1 /\ e <= Q.hi                                                      \* the wallet knows the tip before it scans up to it
           /\ Apply(ScanInsertions(s, e, FoundIn(s, e), ends, Act, Birthday), [k |-> "scan", s |-> s, e |-> e])
           /\ scanned' = scanned \cup (s..(e - 1))
           /\ UNCHANGED << top, ends, wn >>
@@ -96,13 +117,14 @@ Trunc == \E h \in Birthday..(Q.hi - 2) :
           /\ ops < MaxOps /\ ops' = ops + 1
           /\ Q' = Cut(Q, h) /\ G' = Cut(G, h)
           /\ scanned' = { x \in scanned : x <= h }
-          /\ \E fork \in BOOLEAN : top' = IF fork THEN MinOf(top, h) ELSE top
-          /\ \E keep \in BOOLEAN : ends' = IF keep THEN ends ELSE [P \in DOMAIN ends |-> { r \in ends[P] : r[2] <= h }]
+          \* a reorg (the chain and the shard ends the wallet knew above h are gone) or a plain rewind
+          /\ \E fork \in BOOLEAN : /\ top' = IF fork THEN MinOf(top, h) ELSE top
+                                   /\ ends' = IF fork THEN [P \in DOMAIN ends |-> { r \in ends[P] : r[2] <= h }] ELSE ends
           /\ last' = [k |-> "trunc", h |-> h] /\ okB' = TRUE /\ UNCHANGED wn
 
-Next == NewBlocks \/ LearnRoot \/ Tip \/ Scan \/ Trunc
+Next == NewBlocks \/ LearnRoots \/ Tip \/ Scan \/ Trunc
 Spec == Init /\ [][Next]_vars
-View == << Q, G, scanned, top, ends, wn, last, okB >>
+View == << Q, G, scanned, top, ends, wn, okB >>
 
 -----------------------------------------------------------------------------------------
 FoldEq == Q = G
@@ -115,11 +137,9 @@ BelowBirthday == \A x \in Hts : x < Birthday => Q.f[x] \in { None, Ignored }
 NoOpenAdjacent == \A x \in Hts : Q.f[x] # OpenAdjacent
 \* widening pool after pool (the code) is the hull of the union of the pools' extensions (the documented intent)
 ChainedIsUnion == \A s \in Birthday..top : \A e \in (s + 1)..(top + 1) :
-                     Chained(<< s, e >>, FoundIn(s, e), ends, Act, Birthday) = Extended(<< s, e >>, FoundIn(s, e), ends, Act, Birthday)
-\* this module's pointwise insertion and canonical table are ScanQueue's (over 0..HHi-1)
-SameAsLayerA == /\ \A s \in HLo..HHi : \A e \in s..HHi : \A p \in { Scanned, Historic, FoundNote, ChainTip, Verify } : \A f \in BOOLEAN :
-                      InsertP(Q.f, Q.lo, Q.hi, s, e, p, f) = SQ!InsertA(Q.f, Q.lo, Q.hi, s, e, p, f)
-                /\ LET c == SQ!Canon(Q.f) IN Vec(Q) = [i \in DOMAIN c |-> << c[i].s, c[i].e, c[i].p >>]
+                     LET fd == FoundIn(s, e) IN Chained(<< s, e >>, fd, ends, Act, Birthday) = Extended(<< s, e >>, fd, ends, Act, Birthday)
+\* this module's canonical table is ScanQueue's (over 0..HHi-1)
+SameAsLayerA == /\ LET c == SQ!Canon(Q.f) IN Vec(Q) = [i \in DOMAIN c |-> << c[i].s, c[i].e, c[i].p >>]
                 /\ FromVec(Vec(Q)) = Q
 
 Raised(c) == IF c = None THEN FoundNote ELSE SQ!Dom(c, FoundNote, FALSE)
